@@ -1492,11 +1492,11 @@ SDIputattr(NC_array  **ap,    /* IN/OUT: attribute list */
             }
 
             /* just add it */
-            attr          = (NC_attr *)NC_new_attr(name, type, (unsigned)count, data);
-            attr->HDFtype = nt; /* Add HDFtype  */
+            attr = (NC_attr *)NC_new_attr(name, type, (unsigned)count, data);
             if (attr == NULL) {
                 HGOTO_ERROR(DFE_INTERNAL, FAIL);
             }
+            attr->HDFtype = nt; /* Add HDFtype  */
 
             if (NC_incr_array((*ap), (uint8_t *)&attr) == NULL) {
                 HGOTO_ERROR(DFE_INTERNAL, FAIL);
